@@ -16,6 +16,7 @@ import (
 	"sort"
 	"strings"
 	"testing"
+	"unsafe"
 
 	gcipher "github.com/emmansun/gmsm/cipher"
 	"github.com/emmansun/gmsm/sm4"
@@ -150,6 +151,11 @@ type mcase struct {
 	InPlace  bool   // dst == src
 	GStart   bool   // guard page before the start of the buffers instead of after their end
 	DstLong  bool   // disjoint only: hand over all of the remaining dst, not just len(src) bytes
+	Align    bool   // buffers on the heap at SrcOff/DstOff bytes from a 64-byte-aligned base with canaries on both sides (no guard pages)
+	SrcOff   int    // 0..15
+	DstOff   int    // 0..15 (in place: dst == src at SrcOff)
+	Adj      int    // Align, disjoint: 1 = dst directly behind src in one allocation, 2 = dst directly before src
+	IVOff    int    // 0..15: offset of the iv/tweak slice handed to constructors and SetIV from a 64-byte-aligned base (keys at 7*IVOff, 11*IVOff mod 16)
 	Scribble bool   // >= 2 calls: run every call through one reused scratch buffer and overwrite everything handed to a call before the next one
 	SetIV    bool   // block modes offering SetIV: check that SetIV restarts the chain
 	Flip     int    // XTS/HCTR: tweak bit to flip for the sensitivity relation, -1 = none
@@ -157,7 +163,7 @@ type mcase struct {
 
 func (c mcase) Key() string {
 	return fmt.Sprintf("%s/%v/%d/%d%v/%x/%x/%v/%d/%x/%v/%v%v%v%v/%d", c.Mode, c.Dec, c.Path, c.Conc, c.Trim, c.KeySeed, []byte(c.IV), c.Sector,
-		c.Len, c.Seed, c.Parts, c.InPlace, c.GStart, c.DstLong, c.SetIV, c.Flip) + fmt.Sprint(c.Scribble)
+		c.Len, c.Seed, c.Parts, c.InPlace, c.GStart, c.DstLong, c.SetIV, c.Flip) + fmt.Sprint(c.Scribble, c.Align, c.SrcOff, c.DstOff, c.Adj, c.IVOff)
 }
 
 func (c *mcase) keys() (k1, k2 []byte) { return gen.Fill(c.KeySeed, 16), gen.Fill(c.KeySeed+1, 16) }
@@ -245,14 +251,87 @@ func scribble(b []byte) {
 // newObj builds one mode object. The key, IV and tweak slices handed to the
 // constructors are private copies that are overwritten as soon as the
 // constructor has returned.
+//
+// Before that they are compared with the original values: no constructor may
+// modify an argument slice. The slices sit at chosen offsets from a
+// 64-byte-aligned base.
 func (c *mcase) newObj(dec bool, iv []byte) (*obj, error) {
-	k1, k2 := c.keys()
-	iv = clone(iv)
-	defer func() {
-		scribble(k1)
-		scribble(k2)
-		scribble(iv)
-	}()
+	a := c.placeArgs(iv)
+	o, err := c.build(dec, a.k1, a.k2, a.iv)
+	if err != nil {
+		return nil, err
+	}
+	return o, a.done()
+}
+
+// argModified is the error for a constructor or call that changed one of its
+// argument slices.
+type argModified struct{ what string }
+
+func (e argModified) Error() string { return e.what }
+
+type ctorArgs struct {
+	k1, k2, iv    []byte
+	wk1, wk2, wiv []byte
+	cans          [][]byte
+}
+
+func place(v []byte, off int) (data []byte, cans [][]byte) {
+	d, pre, post := alignedBuf(len(v), off)
+	copy(d, v)
+	return d, [][]byte{pre, post}
+}
+
+func (c *mcase) placeArgs(iv []byte) *ctorArgs {
+	a := &ctorArgs{}
+	a.wk1, a.wk2 = c.keys()
+	a.wiv = clone(iv)
+	var c1, c2, c3 [][]byte
+	a.k1, c1 = place(a.wk1, c.IVOff*7%16)
+	a.k2, c2 = place(a.wk2, c.IVOff*11%16)
+	a.iv, c3 = place(a.wiv, c.IVOff%16)
+	a.cans = append(append(c1, c2...), c3...)
+	return a
+}
+
+// done checks the argument slices after the constructors have returned and
+// then overwrites them.
+func (a *ctorArgs) done() error {
+	var err error
+	switch {
+	case !bytes.Equal(a.k1, a.wk1):
+		err = argModified{fmt.Sprintf("a constructor modified its key argument: %x -> %x", a.wk1, a.k1)}
+	case !bytes.Equal(a.k2, a.wk2):
+		err = argModified{fmt.Sprintf("a constructor modified its second key (tweak key / hash key) argument: %x -> %x", a.wk2, a.k2)}
+	case !bytes.Equal(a.iv, a.wiv):
+		err = argModified{fmt.Sprintf("a constructor modified its iv/tweak argument: %x -> %x", a.wiv, a.iv)}
+	}
+	for _, cn := range a.cans {
+		if err == nil && !canaryOK(cn) {
+			err = argModified{"a constructor wrote next to one of its argument slices"}
+		}
+	}
+	scribble(a.k1)
+	scribble(a.k2)
+	scribble(a.iv)
+	return err
+}
+
+// pair builds two objects of opposite direction from the SAME argument
+// slices, firstDec first, and only then checks and overwrites the slices.
+func (c *mcase) pair(firstDec bool, iv []byte) (first, second *obj, err error) {
+	a := c.placeArgs(iv)
+	if first, err = c.build(firstDec, a.k1, a.k2, a.iv); err != nil {
+		return
+	}
+	if second, err = c.build(!firstDec, a.k1, a.k2, a.iv); err != nil {
+		return
+	}
+	err = a.done()
+	return
+}
+
+func (c *mcase) build(dec bool, k1, k2, iv []byte) (*obj, error) {
 	creator := func(k []byte) (cipher.Block, error) { return newBlock(c.Path, c.Conc, c.Trim, k) }
 	o := &obj{dec: dec}
 	var err error
@@ -338,7 +417,69 @@ const (
 	patCan   = 0xa5
 )
 
-type bufOpt struct{ inPlace, gStart, dstLong, scribble bool }
+type bufOpt struct {
+	inPlace, gStart, dstLong, scribble bool
+	align                              bool // heap buffers at chosen offsets from a 64-byte-aligned base, canaries on both sides
+	srcOff, dstOff                     int
+	adj                                int // align, disjoint: 1 dst directly behind src, 2 dst directly before src (one allocation)
+}
+
+// alignedBuf returns n bytes that start off bytes behind a 64-byte-aligned
+// address, with canary strips directly before and after them.
+func alignedBuf(n, off int) (data, pre, post []byte) {
+	raw := make([]byte, n+2*margin+64+16)
+	pad := int((64 - uintptr(unsafe.Pointer(&raw[margin]))%64) % 64)
+	start := margin + pad + off
+	pre, data, post = raw[start-margin:start], raw[start:start+n:start+n], raw[start+n:start+n+margin]
+	for i := range pre {
+		pre[i], post[i] = patCan, patCan
+	}
+	return
+}
+
+// bufs is what one call sequence (or, scribbled, one call) works on.
+type bufs struct {
+	src, dst []byte // dst has `room` bytes; dst == src in place
+	cans     [][]byte
+	free     func()
+}
+
+func provision(n, room int, o bufOpt) bufs {
+	if !o.align {
+		gs, src, scan := guarded(n, o.gStart, 0)
+		b := bufs{src: src, dst: src, cans: [][]byte{scan}, free: gs.Free}
+		if !o.inPlace {
+			gd, dst, dcan := guarded(room, o.gStart, 1)
+			b.dst, b.cans = dst, append(b.cans, dcan)
+			b.free = func() { gs.Free(); gd.Free() }
+		}
+		return b
+	}
+	nop := func() {}
+	switch {
+	case o.inPlace:
+		d, pre, post := alignedBuf(n, o.srcOff)
+		return bufs{d, d, [][]byte{pre, post}, nop}
+	case o.adj == 1:
+		d, pre, post := alignedBuf(n+room, o.srcOff)
+		return bufs{d[:n:n], d[n : n+room : n+room], [][]byte{pre, post}, nop}
+	case o.adj == 2:
+		d, pre, post := alignedBuf(room+n, o.dstOff)
+		return bufs{d[room : room+n : room+n], d[:room:room], [][]byte{pre, post}, nop}
+	}
+	sd, spre, spost := alignedBuf(n, o.srcOff)
+	dd, dpre, dpost := alignedBuf(room, o.dstOff)
+	return bufs{sd, dd, [][]byte{spre, spost, dpre, dpost}, nop}
+}
+
+func (b *bufs) cansOK() bool {
+	for _, c := range b.cans {
+		if !canaryOK(c) {
+			return false
+		}
+	}
+	return true
+}
 
 // Guard-page regions are mapped once per process and reused (mapping four
 // fresh regions per call made the kernel the bottleneck); every use
@@ -404,26 +545,26 @@ func canaryOK(c []byte) bool {
 func (c *mcase) run(dec bool, iv, msg []byte, parts []int, o bufOpt) ([]byte, error) {
 	ob, err := c.newObj(dec, iv)
 	if err != nil {
+		if _, ok := err.(argModified); ok {
+			return nil, err
+		}
 		return nil, fmt.Errorf("constructor failed: %v", err)
 	}
 	n := len(msg)
 	if o.scribble && len(parts) >= 2 {
 		return c.runScribbled(ob, msg, parts, o)
 	}
-	gs, src, scan := guarded(n, o.gStart, 0)
-	defer gs.Free()
+	// with dstLong the destination has room beyond len(src), which the
+	// interfaces allow and promise not to touch
+	room := n
+	if o.dstLong {
+		room = n + dstExtra
+	}
+	b := provision(n, room, o)
+	defer b.free()
+	src, dst := b.src, b.dst
 	copy(src, msg)
-	dst, dcan := src, scan
 	if !o.inPlace {
-		// with dstLong the destination has room beyond len(src), which the
-		// interfaces allow and promise not to touch
-		room := n
-		if o.dstLong {
-			room = n + dstExtra
-		}
-		var gd freer
-		gd, dst, dcan = guarded(room, o.gStart, 1)
-		defer gd.Free()
 		for i := range dst {
 			dst[i] = patDst
 		}
@@ -460,7 +601,7 @@ func (c *mcase) run(dec bool, iv, msg []byte, parts []int, o bufOpt) ([]byte, er
 				return nil, fmt.Errorf("%s: src was modified", where)
 			}
 		}
-		if !canaryOK(scan) || !canaryOK(dcan) {
+		if !b.cansOK() {
 			return nil, fmt.Errorf("%s: bytes next to the buffer were overwritten", where)
 		}
 	}
@@ -481,16 +622,15 @@ func (c *mcase) runScribbled(ob *obj, msg []byte, parts []int, o bufOpt) ([]byte
 	out := make([]byte, 0, n)
 	off := 0
 	for i, p := range parts {
-		gs, s, scan := guarded(p, o.gStart, 0)
+		room := p
+		if o.dstLong {
+			room = p + dstExtra
+		}
+		b := provision(p, room, o)
+		s, full := b.src, b.dst
 		copy(s, msg[off:off+p])
-		d, full, dcan := s, s, scan
-		var gd freer
+		d := s
 		if !o.inPlace {
-			room := p
-			if o.dstLong {
-				room = p + dstExtra
-			}
-			gd, full, dcan = guarded(room, o.gStart, 1)
 			for k := range full {
 				full[k] = patDst
 			}
@@ -510,16 +650,13 @@ func (c *mcase) runScribbled(ob *obj, msg []byte, parts []int, o bufOpt) ([]byte
 				err = fmt.Errorf("%s: src was modified", where)
 			}
 		}
-		if err == nil && (!canaryOK(scan) || !canaryOK(dcan)) {
+		if err == nil && !b.cansOK() {
 			err = fmt.Errorf("%s: bytes next to the buffer were overwritten", where)
 		}
 		out = append(out, d[:p]...)
 		scribble(s)
 		scribble(full)
-		gs.Free()
-		if gd != nil {
-			gd.Free()
-		}
+		b.free()
 		if err != nil {
 			return nil, err
 		}
@@ -603,12 +740,15 @@ func (c *mcase) valid() error {
 	if c.Flip >= 128 {
 		return fmt.Errorf("malformed case: flip")
 	}
+	if c.SrcOff < 0 || c.SrcOff > 15 || c.DstOff < 0 || c.DstOff > 15 || c.IVOff < 0 || c.IVOff > 15 || c.Adj < 0 || c.Adj > 2 {
+		return fmt.Errorf("malformed case: alignment")
+	}
 	return nil
 }
 
 const xtsTailClass = "XTS: >=1 full bulk batch followed by a 1..15-byte tail"
 
-func (c *mcase) classify(r *h.Rec, msg []byte) {
+func (c *mcase) classify(r *h.Rec, red int) {
 	dir := "enc"
 	if c.Dec {
 		dir = "dec"
@@ -670,7 +810,39 @@ func (c *mcase) classify(r *h.Rec, msg []byte) {
 	} else {
 		r.Label("calls=1")
 	}
+	if c.IVOff%16 != 0 {
+		r.Label("constructor key/iv/tweak slices misaligned")
+	}
 	switch {
+	case c.Align:
+		so, do := c.SrcOff, c.DstOff
+		switch {
+		case c.InPlace:
+			do = so
+			r.Label("buf=heap+canaries,inplace")
+		case c.Adj == 1:
+			do = (so + c.Len) % 16
+			r.Label("buf=heap+canaries,dst directly behind src")
+		case c.Adj == 2:
+			room := c.Len
+			if c.DstLong {
+				room += dstExtra
+			}
+			so = (do + room) % 16
+			r.Label("buf=heap+canaries,dst directly before src")
+		default:
+			r.Label("buf=heap+canaries,disjoint")
+		}
+		switch {
+		case so%16 != 0 && do%16 != 0:
+			r.Label("align: src and dst not 16-byte aligned")
+		case so%16 != 0:
+			r.Label("align: src not 16-byte aligned")
+		case do%16 != 0:
+			r.Label("align: dst not 16-byte aligned")
+		default:
+			r.Label("align: src and dst 16-byte aligned")
+		}
 	case c.InPlace && c.GStart:
 		r.Label("buf=inplace,guard-at-start")
 	case c.InPlace:
@@ -703,8 +875,6 @@ func (c *mcase) classify(r *h.Rec, msg []byte) {
 		}
 	}
 	if isXTS(c.Mode) {
-		k1, k2 := c.keys()
-		_, red := refXTS(ref.NewSM4(k1), ref.NewSM4(k2), c.Mode == "gbxts", c.Dec, c.IV, msg)
 		if red > 0 {
 			r.Label("xts-mul2-reduces")
 			carry = true
@@ -755,13 +925,41 @@ func checkCase(c mcase, r *h.Rec) error {
 	if c.Mode == "ecb" {
 		iv = make([]byte, bs)
 	}
-	c.classify(r, msg)
+	// every model evaluation of this case is over msg; memoise by (tweak, variant)
+	memo := map[string][]byte{}
+	xtsRed := 0
+	modelOf := func(iv []byte, kf bool) []byte {
+		key := fmt.Sprintf("%x/%v", iv, kf)
+		if w, ok := memo[key]; ok {
+			return w
+		}
+		var w []byte
+		if isXTS(c.Mode) {
+			k1, k2 := c.keys()
+			var red int
+			w, red = refXTS(ref.NewSM4(k1), ref.NewSM4(k2), c.Mode == "gbxts", c.Dec, iv, msg)
+			if len(memo) == 0 {
+				xtsRed = red
+			}
+		} else {
+			w = c.model(c.Dec, iv, msg, kf)
+		}
+		memo[key] = w
+		return w
+	}
+	modelOf(iv, false)
+	c.classify(r, xtsRed)
 	desc := func() string {
 		k1, k2 := c.keys()
-		return fmt.Sprintf("mode=%s dec=%v path=%s conc=%d trim=%v key=%x key2=%x iv=%x len=%d parts=%v inplace=%v guardstart=%v dstlong=%v scribble=%v msg=%s",
-			c.Mode, c.Dec, pathNames[c.Path], c.Conc, c.Trim, k1, k2, iv, c.Len, c.Parts, c.InPlace, c.GStart, c.DstLong, c.Scribble, h.Hex(msg))
+		return fmt.Sprintf("mode=%s dec=%v path=%s conc=%d trim=%v key=%x key2=%x iv=%x len=%d parts=%v inplace=%v guardstart=%v dstlong=%v scribble=%v align=%v(src+%d dst+%d adj=%d iv+%d) msg=%s",
+			c.Mode, c.Dec, pathNames[c.Path], c.Conc, c.Trim, k1, k2, iv, c.Len, c.Parts, c.InPlace, c.GStart, c.DstLong, c.Scribble, c.Align, c.SrcOff, c.DstOff, c.Adj, c.IVOff, h.Hex(msg))
 	}
-	opt := bufOpt{c.InPlace, c.GStart, c.DstLong, c.Scribble}
+	opt := bufOpt{inPlace: c.InPlace, gStart: c.GStart, dstLong: c.DstLong, scribble: c.Scribble,
+		align: c.Align, srcOff: c.SrcOff, dstOff: c.DstOff, adj: c.Adj}
+	// the other runs of this case use the other in-place/guard arrangement and swap the offsets
+	alt := func(inPlace, gStart bool) bufOpt {
+		return bufOpt{inPlace: inPlace, gStart: gStart, align: c.Align, srcOff: c.DstOff, dstOff: c.SrcOff, adj: c.Adj}
+	}
 	// consult the list of known findings at most once per case, so that the
 	// evidence counts cases, not oracle calls
 	kfAsked, kfOpen := false, false
@@ -774,12 +972,12 @@ func checkCase(c mcase, r *h.Rec) error {
 
 	// compare against the definition; for HCTR inputs of the known-finding
 	// class the documented wrong behaviour is matched by the second model
-	oracle := func(iv, in, got []byte, what string) (kfHit bool, err error) {
-		want := c.model(c.Dec, iv, in, false)
+	oracle := func(iv, got []byte, what string) (kfHit bool, err error) {
+		want := modelOf(iv, false)
 		if bytes.Equal(got, want) {
 			return false, nil
 		}
-		if c.Mode == "hctr" && hctrKFClass(len(in)) && bytes.Equal(got, c.model(c.Dec, iv, in, true)) && known() {
+		if c.Mode == "hctr" && hctrKFClass(len(msg)) && bytes.Equal(got, modelOf(iv, true)) && known() {
 			return true, nil
 		}
 		d := 0
@@ -796,7 +994,7 @@ func checkCase(c mcase, r *h.Rec) error {
 	if len(got) != len(msg) {
 		return fmt.Errorf("output length %d != input length %d", len(got), len(msg))
 	}
-	kfHit, err := oracle(iv, msg, got, "output")
+	kfHit, err := oracle(iv, got, "output")
 	if err != nil {
 		return err
 	}
@@ -806,7 +1004,7 @@ func checkCase(c mcase, r *h.Rec) error {
 
 	// Decrypt(Encrypt(m)) == m with a fresh object, other buffer arrangement
 	invDec := !c.Dec && hasDirection(c.Mode)
-	back, err := c.run(invDec, iv, got, nil, bufOpt{inPlace: !c.InPlace, gStart: !c.GStart})
+	back, err := c.run(invDec, iv, got, nil, alt(!c.InPlace, !c.GStart))
 	if err != nil {
 		return fmt.Errorf("inverse direction (dec=%v inplace=%v guardstart=%v): %v [%s]", invDec, !c.InPlace, !c.GStart, err, desc())
 	}
@@ -819,9 +1017,30 @@ func checkCase(c mcase, r *h.Rec) error {
 			invDec, !c.InPlace, !c.GStart, h.Hex(got), d, h.Hex(back[d:]), desc())
 	}
 
+	// an encrypter and a decrypter built from the SAME key/iv/tweak slices, in
+	// either order, are both the textbook objects for those values
+	if hasDirection(c.Mode) {
+		first, second, err := c.pair(c.Dec, iv)
+		if err != nil {
+			return fmt.Errorf("building a dec=%v and then a dec=%v object from the same argument slices: %v [%s]", c.Dec, !c.Dec, err, desc())
+		}
+		in := clone(msg)
+		o1 := make([]byte, len(msg))
+		first.call(o1, in)
+		in2 := clone(got)
+		o2 := make([]byte, len(msg))
+		second.call(o2, in2)
+		if !bytes.Equal(o1, got) || !bytes.Equal(o2, msg) {
+			return fmt.Errorf("objects built as a pair (dec=%v first) from the same argument slices differ from objects built alone: %s / %s [%s]", c.Dec, h.Hex(o1), h.Hex(o2), desc())
+		}
+		if !bytes.Equal(in, msg) || !bytes.Equal(in2, got) {
+			return fmt.Errorf("a call modified its src although dst != src [%s]", desc())
+		}
+	}
+
 	// several calls on one object == one call (model-free form of the split relation)
 	if len(c.Parts) >= 2 || c.Mode == "hctr" {
-		one, err := c.run(c.Dec, iv, msg, nil, bufOpt{inPlace: !c.InPlace, gStart: c.GStart})
+		one, err := c.run(c.Dec, iv, msg, nil, alt(!c.InPlace, c.GStart))
 		if err != nil {
 			return fmt.Errorf("one-shot run: %v [%s]", err, desc())
 		}
@@ -866,8 +1085,11 @@ func checkCase(c mcase, r *h.Rec) error {
 			r.Label("SetIV")
 			var prevOut, prevSnap []byte
 			for round := 0; round < 2; round++ {
-				ivc := clone(iv)
+				ivc, ivcans := place(iv, c.IVOff%16)
 				s.SetIV(ivc)
+				if !bytes.Equal(ivc, iv) || !canaryOK(ivcans[0]) || !canaryOK(ivcans[1]) {
+					return fmt.Errorf("SetIV modified its argument (%x -> %x) or wrote next to it [%s]", iv, ivc, desc())
+				}
 				scribble(ivc)
 				if prevOut != nil {
 					if !bytes.Equal(prevOut, prevSnap) {
@@ -895,14 +1117,14 @@ func checkCase(c mcase, r *h.Rec) error {
 		if err != nil {
 			return fmt.Errorf("flipped tweak: %v [%s]", err, desc())
 		}
-		if _, err := oracle(iv2, msg, got2, fmt.Sprintf("output under tweak %x", iv2)); err != nil {
+		if _, err := oracle(iv2, got2, fmt.Sprintf("output under tweak %x", iv2)); err != nil {
 			return err
 		}
 		if bytes.Equal(got2, got) {
 			// only waived for tweak bits the bug-compatible model itself ignores
 			waived := false
 			if c.Mode == "hctr" && hctrKFClass(c.Len) &&
-				bytes.Equal(c.model(c.Dec, iv, msg, true), c.model(c.Dec, iv2, msg, true)) && known() {
+				bytes.Equal(modelOf(iv, true), modelOf(iv2, true)) && known() {
 				waived = true
 				r.Label("hctr tweak bit ignored (known finding)")
 			}
@@ -962,12 +1184,27 @@ func sweepCases(mode string, emit func(mcase)) {
 	for n := minLen(mode); n <= maxLen; n += step {
 		for _, dec := range dirs {
 			for path := 0; path < 3; path++ {
-				for v := 0; v < 4; v++ {
+				for v := 0; v < 6; v++ {
+					// whole-block lengths are always 16-byte aligned in the guard-page
+					// buffers, so they get both alignment variants; other lengths
+					// are misaligned there already and get one, alternating
+					if n%bs != 0 && v >= 4 && (v-4) != (n+path)%2 {
+						continue
+					}
 					c := mcase{Mode: mode, Dec: dec, Path: path, Len: n, Flip: -1}
+					if v >= 4 {
+						// alignment flavour: nothing 16-byte aligned (guard-page
+						// buffers of whole blocks always are); 4 disjoint, 5 in place
+						c.Align = true
+						c.SrcOff = 1 + (n/bs+3*path)%15
+						c.DstOff = 1 + (n/bs*7+path+5)%15
+						c.IVOff = 1 + (n+path)%15
+						c.Adj = (n/bs + path) % 3
+					}
 					c.KeySeed = gen.Mix(h.Seed, mi, uint64(n), 1)
 					c.Seed = gen.Mix(h.Seed, mi, uint64(n), uint64(v), 2)
 					c.InPlace = v&1 == 1
-					c.GStart = v&2 == 2
+					c.GStart = v&2 == 2 && v < 4
 					c.DstLong = (n+v)%3 == 0
 					ivSeed := gen.Mix(h.Seed, mi, uint64(n), uint64(v), 3)
 					c.IV = gen.Fill(ivSeed, bs)
@@ -991,7 +1228,7 @@ func sweepCases(mode string, emit func(mcase)) {
 							c.IV = tweakFor(c.KeySeed, unhex(structuredT[(n/5+v)%len(structuredT)]))
 						}
 					}
-					if isXTS(mode) || mode == "hctr" {
+					if (isXTS(mode) || mode == "hctr") && (v == (n+path)%4 || v >= 4) {
 						c.Flip = (n*13 + v*37) % 128
 						if c.Sector {
 							c.Flip %= 64
@@ -1069,6 +1306,9 @@ func boundaryCases(mode string, emit func(mcase)) {
 		case n > 65537 && n < 65552, n > 131072:
 			vs = []int{2 * (li % 2), 2*(li%2) + 1}
 		}
+		if mode == "hctr" && len(vs) == 4 {
+			vs = []int{0, 2, 3}[:2+li%2] // single calls only: the split arrangements would repeat 0 and 2
+		}
 		for _, dec := range dirs {
 			for path := 0; path < 3; path++ {
 				for _, v := range vs {
@@ -1077,6 +1317,13 @@ func boundaryCases(mode string, emit func(mcase)) {
 					c.Seed = gen.Mix(h.Seed, mi, uint64(n), uint64(v), 12)
 					c.InPlace = v == 1 || v == 2
 					c.GStart = (li+v)%2 == 1
+					if (li+v+path)%3 == 0 {
+						c.Align = true
+						c.SrcOff = 1 + (li+3*path+v)%15
+						c.DstOff = 1 + (7*li+path+5*v)%15
+						c.IVOff = 1 + (li+path)%15
+						c.Adj = (li + v) % 3
+					}
 					c.DstLong = v == 3
 					ivSeed := gen.Mix(h.Seed, mi, uint64(n), uint64(v), 13)
 					c.IV = gen.Fill(ivSeed, bs)
@@ -1245,6 +1492,16 @@ func genCase(mode string) func(*rapid.T) mcase {
 		c.GStart = rapid.Bool().Draw(t, "guardAtStart")
 		c.DstLong = rapid.Bool().Draw(t, "dstLong")
 		c.SetIV = rapid.Bool().Draw(t, "setIV")
+		if rapid.IntRange(0, 2).Draw(t, "align") == 0 {
+			c.Align = true
+			offs := rapid.OneOf(rapid.IntRange(0, 15), rapid.SampledFrom([]int{0, 1, 8, 15}))
+			c.SrcOff = offs.Draw(t, "srcOff")
+			c.DstOff = offs.Draw(t, "dstOff")
+			c.Adj = rapid.IntRange(0, 2).Draw(t, "adj")
+		}
+		if rapid.Bool().Draw(t, "ivMisaligned") {
+			c.IVOff = rapid.IntRange(1, 15).Draw(t, "ivOff")
+		}
 		c.Scribble = len(c.Parts) >= 2 && rapid.IntRange(0, 4).Draw(t, "contiguous") != 0
 		if isXTS(mode) || mode == "hctr" {
 			hi := 127
@@ -1284,7 +1541,7 @@ func observe(mode string) {
 		for _, dec := range []bool{false, true} {
 			c := mcase{Mode: mode, Path: path}
 			o, err := c.newObj(dec, make([]byte, bs))
-			if err != nil {
+			if _, modified := err.(argModified); err != nil && !modified {
 				h.HarnessError("constructor %s: %v", mode, err)
 			}
 			d := "enc"
